@@ -216,7 +216,17 @@ ProcExpect(expected, original) == IF original \in ProcEither THEN "EITHER"
 (* date tokens ("date to the second"): default = constructor default (now, with microseconds), plain, midnight     *)
 (* 00:00:00, eoy = 31 Dec 23:59:59, micro = 31 Dec 23:59:59.999999 (rounding up would change the year),           *)
 (* micro1 = .000001, leap = 29 Feb with .5 s                                                                      *)
-DateTokens == {"default", "plain", "midnight", "eoy", "micro", "micro1", "leap"}
+(* y1970 / y9999 = extreme years; utc, tzplus (+02:00), tzminus (-05:30) = timezone-AWARE datetimes: "to the     *)
+(* second" means the same wall-clock fields (year..second) come back - whether the tzinfo survives is EITHER;      *)
+(* dateonly = a datetime.date (the API stores whatever it is given): its day comes back at 00:00:00.                *)
+(* For naive values the reader must not invent a time zone.                                                         *)
+DateTokens == {"default", "plain", "midnight", "eoy", "micro", "micro1", "leap", "y1970", "y9999", "utc", "tzplus",
+               "tzminus", "dateonly"}
+DateAware  == {"utc", "tzplus", "tzminus"}
+(* projection of the read-back tzinfo: "none" both naive, "kept" same offset, "dropped" / "added" / "changed" *)
+(* ("none" also for an aware token: an object that was itself read from a document may already have lost it) *)
+TzOK(original, tz) == IF original \in DateAware THEN tz \in {"none", "kept", "dropped", "changed"}   \* EITHER band
+                      ELSE tz = "none"
 (* lexical class of the shortest decimal text that reads back bit-identically (what an exact writer emits) *)
 LexOfV == [zero |-> "decimal", negzero |-> "decimal", intf |-> "decimal", pyint |-> "int", ord |-> "decimal",
            tiny |-> "exp", huge |-> "exp", neg |-> "decimal", sig17 |-> "decimal", extreme |-> "exp",
